@@ -23,6 +23,8 @@ SPECS = {
     'p384':      ('ECDSA', 'NIST_P384', [('ECDH', 'NIST_P384', 'enc')], 'Quinn P384 <quinn@example.com>'),
     'p521':      ('ECDSA', 'NIST_P521', [('ECDH', 'NIST_P521', 'enc')], 'Rae P521 <rae@example.com>'),
     'secp256k1': ('ECDSA', 'SECP256K1', [('ECDH', 'SECP256K1', 'enc')], 'Sam K1 <sam@example.com>'),
+    # primary key id AND encryption subkey id begin with a zero octet (found by search; ids are numbers to some code paths)
+    'zeroid':    ('EdDSA', 'Ed25519', [('ECDH', 'Curve25519', 'enc')], 'Zoe Zero <zoe@example.com>'),
 }
 
 
@@ -32,7 +34,10 @@ def _build(name):
         SymmetricKeyAlgorithm as S, CompressionAlgorithm as Z
     alg, size, subs, uid = SPECS[name]
     sz = getattr(C, size) if isinstance(size, str) else size
+    want0 = name == 'zeroid'
     key = pgpy.PGPKey.new(getattr(A, alg), sz, created=T0)
+    while want0 and not str(key.fingerprint.keyid).startswith('00'):
+        key = pgpy.PGPKey.new(getattr(A, alg), sz, created=T0)
     nm, rest = uid.split(' <')
     comment = ''
     if '(' in nm:
@@ -44,6 +49,8 @@ def _build(name):
     for salg, ssize, usage in subs:
         ssz = getattr(C, ssize) if isinstance(ssize, str) else ssize
         sk = pgpy.PGPKey.new(getattr(A, salg), ssz, created=T0)
+        while want0 and not str(sk.fingerprint.keyid).startswith('00'):
+            sk = pgpy.PGPKey.new(getattr(A, salg), ssz, created=T0)
         fl = {F.EncryptCommunications, F.EncryptStorage} if usage == 'enc' else {F.Sign}
         key.add_subkey(sk, usage=fl, created=T0)
     return key
